@@ -10,6 +10,7 @@ RULE = ("correspondence: expand_message_xmd / hash_to_field_FQ / hash_to_field_F
         "around block boundaries and up to KiB, tags of length 0,1,254,255,256, lengths 0,1,31,32,33,64,255b,255b+1,65535,65536, hashes "
         "sha256/sha384/sha512/sha3_256/blake2b, counts 1..8; exhaustive sweep of math.ceil(len/b) over 0..65536 for every digest size; "
         "predicates: real output vs an independent RFC 9380 transcription")
+EXTRA_MODULES = {"Props.TieHash": "PyEcc.Tie."}
 HYPOTHESES = ["HB4_hash (hashlib objects are deterministic functions of their input with the advertised digest_size/block_size)"]
 NOT_YET_PROVED = []
 ASSUMPTIONS = ["math.ceil(len_in_bytes / b_in_bytes) is modelled as exact integer ceiling division; validated exhaustively over the accepted range on every run"]
